@@ -95,6 +95,11 @@ func defaultServerSettings() serverSettings {
 	}
 }
 
+const (
+	maxIndentSize      = 64
+	maxAlignmentColumn = 1024
+)
+
 func normalizeServerSettings(settings serverSettings) serverSettings {
 	defaults := defaultServerSettings()
 	if settings.Completion.MaxResults <= 0 {
@@ -102,6 +107,13 @@ func normalizeServerSettings(settings serverSettings) serverSettings {
 	}
 	if settings.Formatting.IndentSize <= 0 {
 		settings.Formatting.IndentSize = defaults.Formatting.IndentSize
+	}
+	// widths are used to build strings of blanks: an absurd value must not exhaust memory
+	if settings.Formatting.IndentSize > maxIndentSize {
+		settings.Formatting.IndentSize = maxIndentSize
+	}
+	if settings.Formatting.MinAlignmentColumn > maxAlignmentColumn {
+		settings.Formatting.MinAlignmentColumn = maxAlignmentColumn
 	}
 	if settings.CLI.Path == "" {
 		settings.CLI.Path = defaults.CLI.Path
